@@ -11,11 +11,12 @@ All datasets carry a unique int64 `idx` column (unique across clients), so conca
 duplication are directly observable.
 """
 import itertools
+import signal
 
 import numpy as np
 
 from vmon import gen
-from vmon.core import bit_equal
+from vmon.core import Inconclusive, bit_equal
 
 PROPERTY = 'C15'
 LEVEL = 'exploration'
@@ -71,6 +72,9 @@ MIN_HITS = {
 }
 
 MASK = '__mask__'
+# A trailing batch without any real row is not excluded by the property text (see ASSUMPTIONS). Set to False to
+# report it under the mechanism key full-*/trailing-all-padding-batch instead of counting it as a class.
+ACCEPT_TRAILING_ALL_PADDING_BATCH = True
 
 
 # ----------------------------------------------------------------------------- references
@@ -164,6 +168,22 @@ def wrap_iterable(kind, items, fd_mod):
   raise AssertionError(kind)
 
 
+class BoundedPass:
+  """Iterates one pass of `it` but never more than `limit` items (a replay that grows must not hang the harness)."""
+
+  def __init__(self, it, limit):
+    self.it, self.limit, self.overflow = it, limit, False
+
+  def __iter__(self):
+    k = 0
+    for x in self.it:
+      k += 1
+      if k > self.limit:
+        self.overflow = True
+        return
+      yield x
+
+
 ITER_KINDS = ['list', 'tuple', 'generator', 'iterator', 'repeatable-gen', 'repeatable-list']
 
 
@@ -173,6 +193,10 @@ def judge_padded(ctx, fam, batches, ref, total, b, k, wit):
   if total == 0:
     ok = len(batches) <= 1 and all(MASK in bt and not np.any(bt[MASK]) for bt in batches)
     ctx.check(ok, f'concat-{fam}/rows-from-nothing', f'{len(batches)} batches with real rows from zero examples', wit)
+    if batches:
+      ctx.klass(f'{fam}:all-padding-batch-from-zero-examples')
+      if not ACCEPT_TRAILING_ALL_PADDING_BATCH:
+        ctx.violation(f'full-{fam}/trailing-all-padding-batch', 'a batch without any real row from zero examples', wit)
     return
   nb = -(-total // b)
   for i, bt in enumerate(batches):
@@ -194,6 +218,9 @@ def judge_padded(ctx, fam, batches, ref, total, b, k, wit):
   if trailing_pad:
     ctx.klass(f'{fam}:trailing-all-padding-batch')
     judged = batches[:-1]
+    if not ACCEPT_TRAILING_ALL_PADDING_BATCH:
+      ctx.violation(f'full-{fam}/trailing-all-padding-batch',
+                    f'{len(batches)} batches for {total} examples: the last one has no real row', wit)
   ctx.check(len(judged) == nb, f'full-{fam}/batch-count',
             f'{len(batches)} batches, expected ceil({total}/{b})={nb} (plus at most one batch without real rows)', wit)
   struct_ok = True
@@ -213,8 +240,8 @@ def judge_padded(ctx, fam, batches, ref, total, b, k, wit):
                 f'final batch mask {m.tolist()} is not a True-prefix of {r} rows', {**wit, 'batch': i})
   if not struct_ok:
     return
-  ok = True
-  for name, col in ref.items():
+  ok = bool(batches)
+  for name, col in (ref.items() if batches else ()):
     got = np.concatenate([bt[name][bt[MASK]] for bt in batches], axis=0)
     if not bit_equal(got, col):
       ok = False
@@ -281,6 +308,8 @@ def padded_point(ctx, fedjax, cd, fd_mod, rng, b, k, sizes):
 
   src = wrap_iterable(ikind, dsets, fd_mod)
   npass = 3 if ikind.startswith('repeatable') or ikind in ('list', 'tuple') else 1
+  if ikind.startswith('repeatable'):
+    src = BoundedPass(src, m)
 
   def run_cd():
     return [list(hp_call(fedjax.padded_batch_client_datasets, src)) for _ in range(npass)]
@@ -292,6 +321,9 @@ def padded_point(ctx, fedjax, cd, fd_mod, rng, b, k, sizes):
     if npass > 1:
       ctx.check(all(same_batches(passes[0], p) for p in passes[1:]), 'repeat-padded/pass-differs',
                 f'batching the same {ikind} of datasets again yields different batches', wit)
+    if isinstance(src, BoundedPass):
+      ctx.check(not src.overflow, 'repeat-padded/pass-yields-extra-items',
+                f'a pass over a RepeatableIterator of {m} datasets yields more than {m} items', wit)
 
   if m:
     ids = gen.hostile_client_ids(rng, m)
@@ -461,16 +493,26 @@ def repeat_point(ctx, fd_mod, n, kind):
   wit = {'length': n, 'base': kind}
 
   def go():
+    # Each pass is read through islice(n + 1): a correct pass ends (and resets the iterator) at request n + 1; a pass
+    # that yields more than n items is cut there, reported, and the iterator is not used any further.
     it = fd_mod.RepeatableIterator(factory())
-    return [list(it) for _ in range(3)]
+    out = []
+    for _ in range(3):
+      out.append(list(itertools.islice(it, n + 1)))
+      if len(out[-1]) > n:
+        break
+    return out
 
   r = ctx.call('RepeatableIterator', go, witness=wit)
   if r.ok:
     p = r.value
     ctx.check(p[0] == items, 'repeat-iter/first-pass-differs-from-base', 'first pass is not the items of the base iterable',
               {**wit, 'passes': p})
-    ctx.check(p[1] == p[0] and p[2] == p[0], 'repeat-iter/later-pass-differs',
-              'a later pass does not replay the items of the first pass', {**wit, 'passes': p})
+    ctx.check(len(p) == 3 and p[1] == p[0] and p[2] == p[0], 'repeat-iter/later-pass-differs',
+              'a later pass does not replay exactly the items of the first pass', {**wit, 'passes': p})
+    if len(p) < 3:
+      ctx.case_done(None, sample=wit, klass=['repeat:' + kind])
+      return
 
   # the docstring's usage: consecutive map() objects over the same iterator
   def go_map():
@@ -590,6 +632,8 @@ def fds_point(ctx, fedjax, cd, rng):
       if not ctx.check(ok, 'fdstream/batch-rows', f'a batch does not have exactly batch_size={b} rows of every feature',
                        wit):
         continue
+      if not o:
+        continue
       sid = np.concatenate([bt['idx'] for bt in o])
       pos = sid - base_id
       valid = bool(((pos >= 0) & (pos < total)).all())
@@ -624,6 +668,30 @@ def size_seqs(b, max_m):
     yield from itertools.product(range(0, 2 * b + 2), repeat=m)
 
 
+def guarded(ctx, fn, *args, **kwargs):
+  """Per-case wall-clock alarm (DESIGN 2.7): a case that does not terminate is INCONCLUSIVE, never a violation,
+  and must not take the whole shard (and the violations it already recorded) down with it."""
+  seconds = 20 if ctx.quick else 120
+  fam = 'watchdog:timeouts:' + str(ctx.cur_case).split('/')[0]
+  if ctx.counters.get(fam, 0) >= 2:  # the family keeps hanging: do not burn the shard's budget on it
+    ctx.count('watchdog:skipped-after-timeouts')
+    return
+
+  def on_alarm(signum, frame):
+    raise Inconclusive(f'case exceeded {seconds}s wall-clock (possible non-termination)')
+
+  old = signal.signal(signal.SIGALRM, on_alarm)
+  signal.setitimer(signal.ITIMER_REAL, seconds)
+  try:
+    fn(*args, **kwargs)
+  except Inconclusive as e:
+    ctx.count(fam)
+    ctx.inconclusive_because(str(e))
+  finally:
+    signal.setitimer(signal.ITIMER_REAL, 0)
+    signal.signal(signal.SIGALRM, old)
+
+
 def run(ctx):
   import fedjax
   from fedjax.core import client_datasets as cd
@@ -635,7 +703,7 @@ def run(ctx):
   box = ((b, k, sizes) for b in range(1, bmax + 1) for k in range(1, 4)
          for sizes in size_seqs(b, 3 if (q or b > 3) else 4))
   for cid, (b, k, sizes) in ctx.enum('pbox', box):
-    padded_point(ctx, fedjax, cd, fd_mod, ctx.rng('pbox', b, k, sizes), b, k, sizes)
+    guarded(ctx, padded_point, ctx, fedjax, cd, fd_mod, ctx.rng('pbox', b, k, sizes), b, k, sizes)
   # ---- padded: random longer sequences
   for cid, rng in ctx.cases('prand', 1500 if q else 30000):
     b = int(rng.randint(1, 34))
@@ -655,33 +723,33 @@ def run(ctx):
       else:
         s = int(rng.randint(0, 3 * b + 3))
       sizes.append(s)
-    padded_point(ctx, fedjax, cd, fd_mod, rng, b, k, sizes)
+    guarded(ctx, padded_point, ctx, fedjax, cd, fd_mod, rng, b, k, sizes)
   # ---- rejection
   for cid, rng in ctx.cases('reject', 600 if q else 8000):
-    reject_point(ctx, fedjax, cd, rng)
+    guarded(ctx, reject_point, ctx, fedjax, cd, rng)
 
   # ---- buffered_shuffle: exhaustive (length, buffer, base kind)
   lmax = 10 if q else 16
   sbox = ((n, buf, kind) for n in range(0, lmax + 1) for buf in range(1, n + 3) for kind in BASE_KINDS)
   for cid, (n, buf, kind) in ctx.enum('shuf', sbox):
-    shuffle_point(ctx, cd, ctx.rng('shuf', n, buf, kind), n, buf, kind)
+    guarded(ctx, shuffle_point, ctx, cd, ctx.rng('shuf', n, buf, kind), n, buf, kind)
   for cid, rng in ctx.cases('shufr', 400 if q else 10000):
     n = int(rng.randint(lmax + 1, 120))
     buf = int(rng.randint(1, n + 3))
     if rng.rand() < 0.3:
       buf = [1, 2, n - 1, n, n + 1, n + 2][int(rng.randint(6))]
-    shuffle_point(ctx, cd, rng, n, buf, BASE_KINDS[int(rng.randint(len(BASE_KINDS)))])
+    guarded(ctx, shuffle_point, ctx, cd, rng, n, buf, BASE_KINDS[int(rng.randint(len(BASE_KINDS)))])
   # ---- RepeatableIterator
   rbox = ((n, kind) for n in list(range(0, 13 if q else 41)) + [64, 200] for kind in BASE_KINDS)
   for cid, (n, kind) in ctx.enum('repeat', rbox):
-    repeat_point(ctx, fd_mod, n, kind)
+    guarded(ctx, repeat_point, ctx, fd_mod, n, kind)
 
   # ---- buffered_shuffle_batch_client_datasets: small exhaustive box x every buffer size
   bb = 2 if q else 3
   bsbox = ((b, sizes, buf) for b in range(1, bb + 1) for m in range(0, 4)
            for sizes in itertools.product(range(0, b + 2), repeat=m) for buf in range(1, sum(sizes) + 3))
   for cid, (b, sizes, buf) in ctx.enum('bsb', bsbox):
-    bsb_point(ctx, fedjax, cd, fd_mod, ctx.rng('bsb', b, sizes, buf), b, sizes, buf)
+    guarded(ctx, bsb_point, ctx, fedjax, cd, fd_mod, ctx.rng('bsb', b, sizes, buf), b, sizes, buf)
   for cid, rng in ctx.cases('bsbr', 400 if q else 8000):
     b = int(rng.randint(1, 34))
     m = int(rng.randint(1, 9))
@@ -690,11 +758,11 @@ def run(ctx):
     buf = int(rng.randint(1, tot + 3))
     if rng.rand() < 0.3:
       buf = max(1, [1, 2, tot - 1, tot, tot + 1, tot + 2][int(rng.randint(6))])
-    bsb_point(ctx, fedjax, cd, fd_mod, rng, b, sizes, buf)
+    guarded(ctx, bsb_point, ctx, fedjax, cd, fd_mod, rng, b, sizes, buf)
 
   # ---- federated stream
   for cid, rng in ctx.cases('fds', 400 if q else 8000):
-    fds_point(ctx, fedjax, cd, rng)
+    guarded(ctx, fds_point, ctx, fedjax, cd, rng)
 
 
 TECHNIQUE = ('runtime monitoring: concatenation / bucket-rule / multiset / replay checkers over unique example ids, on an '
